@@ -2,7 +2,7 @@
    form parses in plain mode - for every well-formed tree of the full grammar (let / func / if / switch / try /
    closures / map literals included), under every stack of enclosing binders. *)
 From P2 Require Import Base.Prelude Base.PreludeProofs Lex.Token Syn.Ast Syn.Parse Syn.Render Syn.ParseRel
-  Syn.ParseProofs Syn.ParseTotal Syn.Full Syn.FullRel Syn.FullProofs Syn.Qualify Syn.QualifyProofs Syn.QualifyFull.
+  Syn.ParseProofs Syn.ParseTotal Syn.Full Syn.FullRel Syn.FullProofs Syn.FullSound Syn.Qualify Syn.QualifyProofs Syn.QualifyFull.
 Local Open Scope nat_scope.
 
 Section QFP.
@@ -472,6 +472,20 @@ Proof.
   - apply (parse_complete_full cfg Ht (pl L) _ e (map (qnb (bnames L)) u)).
     + rewrite (proj1 fq_wf). exact W.
     + exact (proj1 qe_all r L e u HL Hb F E).
+Qed.
+
+(* the same starting from TEXT (tokens): whatever GenerateWithMap's parser accepts is the rendering of a program tree,
+   and the qualified program of that tree parses in plain mode to the same annotated AST *)
+Theorem withmap_is_qualify_tokens : table_ok cfg = true ->
+  forall L ts e, local L = true -> bound_in L m = false -> full_toks ts = true ->
+  parse cfg (wm L) ts = POk e ->
+  exists r, fflatten cfg r = ts /\ fwf cfg r = true /\
+            (fresh r = true -> parse cfg (pl L) (fflatten cfg (fqualify (bnames L) r)) = POk e).
+Proof.
+  intros Ht L ts e HL Hb F H.
+  destruct (parse_sound_full cfg Ht _ (wm L) ts e F H) as (r & u & W & E & Et).
+  exists r. repeat split; auto. intros Fr.
+  exact (proj2 (withmap_is_qualify_full Ht L r e u HL Hb Fr W E)).
 Qed.
 
 End QFP.
